@@ -172,16 +172,30 @@ def run_optimization(case, R):
     parset = P.parsets[0]
     start = float(t[0])
     adj_year = float(t[max(1, len(t) // 3)])
-    instr = at.ProgramInstructions(start_year=start, alloc=pset)
+    adj_years = [adj_year]
+    multi = (u[0] * 1000) % 1 < 0.35 and len(t) >= 6
+    if multi:
+        # the same programmes adjusted in two years, starting from an allocation that differs between those years
+        adj_years = [adj_year, float(t[max(2, (2 * len(t)) // 3)])]
+        base_alloc = pset.get_alloc(np.array([start]), at.ProgramInstructions(start_year=start))
+        alloc = {}
+        for j, pn in enumerate(prognames):
+            b = float(base_alloc[pn][0])
+            alloc[pn] = at.TimeSeries([start, adj_years[0], adj_years[1]], [b, b * (1.0 + 0.5 * ((j + 1) % 3)), b * (3.0 - 0.7 * (j % 3))])
+        instr = at.ProgramInstructions(start_year=start, alloc=alloc)
+        R.count("multi_year_adjustment_problems")
+    else:
+        instr = at.ProgramInstructions(start_year=start, alloc=pset)
     n_adj = max(1, min(len(prognames), 1 + int(u[0] * 4)))
     adjustments = []
     adj_specs = []
+    tarr = adj_years if multi else adj_year
     for i, pn in enumerate(prognames[:n_adj]):
         if (u[1] * 10 + i) % 2 < 1:
-            adjustments.append(OP.SpendingAdjustment(pn, adj_year, "rel", 0.5, 2.0))
+            adjustments.append(OP.SpendingAdjustment(pn, tarr, "rel", 0.5, 2.0))
             adj_specs.append((pn, "rel", 0.5, 2.0))
         else:
-            adjustments.append(OP.SpendingAdjustment(pn, adj_year, "abs", 0.0, 1e7))
+            adjustments.append(OP.SpendingAdjustment(pn, tarr, "abs", 0.0, 1e7))
             adj_specs.append((pn, "abs", 0.0, 1e7))
     # measurables
     y0 = float(t[len(t) // 2])
@@ -347,22 +361,29 @@ def run_optimization(case, R):
                 R.ok("result-no-worse-than-start")
             moved = o_end < o_start - tol
             # bounds on the adjusted spending
-            for pn, lt, lo, hi in adj_specs:
-                v = float(out_instr.alloc[pn].get(adj_year))
-                v0 = float(i_start.alloc[pn].get(adj_year)) if lt == "rel" else None
-                x0v = float(pset.get_alloc(adj_year, instr)[pn][0])
-                lo_, hi_ = (lo, hi) if lt == "abs" else (x0v * lo, x0v * hi)
-                if v < lo_ - 1e-6 * max(1, abs(lo_)) or v > hi_ + 1e-6 * max(1, abs(hi_)):
-                    R.bad("adjusted-values-within-bounds", "C15:adjusted-value-outside-bounds[%s]" % lt, {"program": pn, "value": v, "bounds": [lo_, hi_]})
-                else:
-                    R.ok("adjusted-values-within-bounds")
-            if use_constraint:
-                tot0 = sum(float(i_start.alloc[pn].get(adj_year)) for pn, *_ in adj_specs)
-                tot1 = sum(float(out_instr.alloc[pn].get(adj_year)) for pn, *_ in adj_specs)
-                if abs(tot0 - tot1) > 1e-6 * max(1.0, abs(tot0)):
-                    R.bad("total-spend-kept", "C15:total-spend-changed", {"start": tot0, "end": tot1})
-                else:
-                    R.ok("total-spend-kept")
+            for ay in adj_years:
+                for pn, lt, lo, hi in adj_specs:
+                    v = float(out_instr.alloc[pn].get(ay))
+                    x0v = float(pset.get_alloc(ay, instr)[pn][0])  # the caller's spending in that year
+                    lo_, hi_ = (lo, hi) if lt == "abs" else (x0v * lo, x0v * hi)
+                    if v < lo_ - 1e-6 * max(1, abs(lo_)) or v > hi_ + 1e-6 * max(1, abs(hi_)):
+                        R.bad("adjusted-values-within-bounds", "C15:adjusted-value-outside-bounds[%s]" % lt, {"program": pn, "year": ay, "value": v, "bounds": [lo_, hi_]})
+                    else:
+                        R.ok("adjusted-values-within-bounds")
+                    # the optimizer starts from the caller's allocation (it lies within these bounds by construction)
+                    vs = float(i_start.alloc[pn].get(ay))
+                    if not use_constraint or len(adj_specs) == len(prognames) or True:
+                        if abs(vs - x0v) > 1e-6 * max(1.0, abs(x0v)):
+                            R.bad("start=callers-instructions", "C15:optimizer-starts-from-another-allocation[%s]" % ("multi-year" if multi else "single-year"), {"program": pn, "year": ay, "callers": x0v, "optimizer_start": vs})
+                        else:
+                            R.ok("start=callers-instructions")
+                if use_constraint:
+                    tot0 = sum(float(pset.get_alloc(ay, instr)[pn][0]) for pn, *_ in adj_specs)  # the caller's total in that year
+                    tot1 = sum(float(out_instr.alloc[pn].get(ay)) for pn, *_ in adj_specs)
+                    if abs(tot0 - tot1) > 1e-6 * max(1.0, abs(tot0)):
+                        R.bad("total-spend-kept", "C15:total-spend-changed", {"year": ay, "start": tot0, "end": tot1})
+                    else:
+                        R.ok("total-spend-kept")
             # hard targets met at the start are met at the end
             for m in mspecs:
                 if m["type"] in ("atmost", "atleast"):
